@@ -136,7 +136,10 @@ def runCase : CaseFn := fun c => Id.run do
   for (ln, line) in c.lines do
     let (op, obs) := splitObs line
     let ws := words op
-    if obs == "HANG" || obs == "PANIC" then
+    if obs.startsWith "PANIC" then
+      out := out.push s!"ORACLE-FAIL C12 case {c.num} line {ln}: shape=panic the dispatcher goroutine panicked while handling: {op} ({obs})"
+      continue
+    if obs.startsWith "HANG" then
       out := out.push s!"ORACLE-FAIL C12 case {c.num} line {ln}: shape=hang the dispatcher stopped reacting at: {op}"
       continue
     -- the property oracle, on the implementation's own observations
